@@ -103,7 +103,8 @@ structure Store where
   packed : Option (List (Name × Bytes)) -- `none`: no packed-refs file; else its records (name, hex id)
   logs : List Name                      -- refs with a reflog file
   dirs : List Path                      -- all directories
-  deriving Repr
+  /-- what the reflog files hold initially (by path); irrelevant for the steps -/
+  logContent : Path → Bytes := fun _ => []
 
 def lockSuffix : Bytes := [46, 108, 111, 99, 107]                          -- ".lock"
 def packedPath : Path := [112, 97, 99, 107, 101, 100, 45, 114, 101, 102, 115]  -- "packed-refs"
@@ -131,7 +132,7 @@ def Store.toFs (s : Store) : Fs := fun p =>
   | some x => some (.file (renderRef x.2))
   | none =>
     if p = packedPath then s.packed.map fun rs => .file (renderPacked rs)
-    else if s.logs.any (fun n => logPath n = p) then some (.file [])
+    else if s.logs.any (fun n => logPath n = p) then some (.file (s.logContent p))
     else if s.dirs.contains p then some .dir
     else none
 
